@@ -666,18 +666,55 @@ def run(chk):
         chk.analysis_error("C01.rej.host: BaseRequest no longer builds its URL from the Host header with URL.build(authority=...)")
     elif eager and any(any(rc in ("BadHttpMessage",) for _r, rc in K.raises_in(h)) for c in eager for _t, h in K.enclosing_try_handlers(c) if "ValueError" in PC.handler_types(h) or h.type is None):
         chk.ok("C01.rej.host", eager[0], "the Host value is run through the same URL.build(authority=...) the request object uses later; its ValueError becomes BadHttpMessage (400)")
+        # yarl splits (and IDNA-decodes) the authority lazily: the parser has to force what the request object reads later
+        if any(isinstance(getattr(c, "parent", None), ast.Attribute) and c.parent.attr in ("host", "raw_host", "port", "explicit_port", "authority") for c in eager):
+            chk.ok("C01.rej.host", eager[0], "the parser reads a component of the built URL, which forces the lazy split of the authority")
+        else:
+            chk.violation("C01.rej.host", eager[0], K.short(eager[0]), "URL.build(authority=host).host",
+                          "URL.build(authority=...) does not look at the authority until a component is read: `Host: xn--a` (UnicodeError from the IDNA codec) or a bracketed non-address passes the parser and fails in the handler when request.url.host is read - 500 instead of 400")
     else:
         chk.violation("C01.rej.host", pm, "Host header", "try: URL.build(authority=host) except ValueError: raise BadHttpMessage",
                       "an invalid Host value (`a:b`, `a:99999999`, `[::1]x`) passes the parser and only fails as ValueError when request.url is first touched: the client gets 500 (or a middleware crashes) instead of the 400 RFC 9112 3.2 requires")
     # the Host value is `uri-host [":" port]`: whatever pattern gates it must refuse userinfo, path, query, fragment and blanks (a value like
     # `internal@public.example` or `evil.example/?x=` otherwise makes request.url name another authority than the header)
+    def _predicate_gate(litsrc, arg):
+        """`if not F(arg): raise` where F is a function of the module that returns False unless `<R>.fullmatch(<its parameter>)` matched:
+        (regex expression, FunctionInfo) or None (fifth hunt: the gate of the Host value grew a second, non-lexical test)"""
+        for cl_ in litsrc:
+            for l in cl_:
+                if len(cl_) != 1 or l.pos:
+                    continue
+                try:
+                    e = ast.parse(l.text, mode="eval").body
+                except SyntaxError:
+                    continue
+                if isinstance(e, ast.Call) and isinstance(e.func, ast.Name) and len(e.args) == 1 and norm.raw(e.args[0]) == arg:
+                    r_ = repo.resolve_name(mod, e.func.id)
+                    if r_ and r_[0] == "func" and len(r_[1].node.args.args) == 1:
+                        hf = r_[1]
+                        par = hf.node.args.args[0].arg
+                        for a_ in ast.walk(hf.node):
+                            if isinstance(a_, ast.Assign) and isinstance(a_.value, ast.Call) and isinstance(a_.value.func, ast.Attribute) and a_.value.func.attr == "fullmatch" \
+                                    and a_.value.args and norm.raw(a_.value.args[0]) == par and isinstance(a_.targets[0], ast.Name):
+                                m_ = a_.targets[0].id
+                                refuses = [rt for rt in ast.walk(hf.node) if isinstance(rt, ast.Return) and isinstance(rt.value, ast.Constant) and rt.value.value is False
+                                           and any(l2.pos and l2.text == f"{m_} is None" for l2 in PC.units(PC.pc(rt, raw=True)))]
+                                if refuses:
+                                    return a_.value.func.value, hf
+        return None
+
     hre = None
+    hpred = None
     for r, cname in K.raises_in(pm.node):
         if cname not in errs:
             continue
         b = PC.has_lit(PC.pc(r, raw=True), [("$R.fullmatch(host)", False), ("$R.fullmatch(host) is None", True), ("not $R.fullmatch(host)", True)], True)
         if b is not None:
             hre = (r, b["R"])
+        else:
+            pg = _predicate_gate(PC.pc(r, raw=True), "host")
+            if pg is not None:
+                hre, hpred = (r, pg[0]), pg[1]
     if hre is None:
         chk.violation("C01.rej.hostsyntax", pm, "Host header", "if not <uri-host[:port] pattern>.fullmatch(host): raise BadHttpMessage",
                       "the Host value is only checked by what makes yarl raise: `internal.example@public.example`, `evil.example/?x=`, `a b`, `[::1`, `:80` reach the handler with 200, and request.url then names a different authority than the header (RFC 9112 3.2 requires 400)")
@@ -686,19 +723,30 @@ def run(chk):
             rx = folder.eval(mod, hre[1])
             import re as _re
             cre = _re.compile(rx.pattern, rx.flags)
-            bad = [w for w in ("a@b", "evil.example/?x=", "a/b", "a b", "a?x", "a#x", "[::1", ":80", "", "a\\b") if cre.fullmatch(w)]
+            bad = [w for w in ("a@b", "evil.example/?x=", "a/b", "a b", "a?x", "a#x", "[::1", ":80", "", "a\\b", "[evil.com]", "[::1]x", "[a b]") if cre.fullmatch(w)]
             good = [w for w in ("example.com", "example.com:8080", "[::1]", "[::1]:80", "127.0.0.1:80", "xn--caf-dma.example", "a_b.example") if not cre.fullmatch(w)]
             if bad or good:
                 chk.violation("C01.rej.hostsyntax", hre[0], "Host pattern", f"refuse {bad!r}; accept {good!r}", "the Host gate does not describe `uri-host [\":\" port]`")
             else:
                 chk.ok("C01.rej.hostsyntax", hre[0], "the Host value is gated by a pattern that admits host[:port] forms and refuses userinfo, path, query, fragment, blanks and unbalanced brackets")
+            # what stands between brackets is an IP-literal: the pattern can only say "hex digits, colons and dots" - that it is an address is
+            # decided by the address parser, whose ValueError has to mean "refused" (F323: `[a:b]`, `[1::2::3]` reached the handler, where
+            # request.url raised: 500 instead of 400)
+            v6 = [c for c in prog.calls_in(hpred.node) if norm.raw(c.func) in ("IPv6Address", "ipaddress.IPv6Address", "ipaddress.ip_address", "ip_address")] if hpred is not None else []
+            if v6 and any(any(x in ("ValueError", "Exception") for x in PC.handler_types(h)) and any(isinstance(rt, ast.Return) and isinstance(rt.value, ast.Constant) and rt.value.value is False for rt in ast.walk(h))
+                          for c in v6 for _t, h in K.enclosing_try_handlers(c)):
+                chk.ok("C01.rej.hostsyntax", v6[0], "a bracketed host is parsed as an IPv6 address; what the address parser refuses is refused")
+            else:
+                chk.violation("C01.rej.hostsyntax", hre[0], "Host / CONNECT authority: bracketed host", "try: IPv6Address(<what stands between the brackets>) except ValueError: return False",
+                              "a bracketed host that is no IP-literal passes the lexical gate (`[a:b]`, `[1::2::3]`, `[12345::]` are hex digits and colons): the request is dispatched, request.url raises ValueError in the handler and the client gets 500 instead of the 400 that the same authority in an absolute-form target gets")
         except (NotConst, AttributeError) as e:
             chk.analysis_error(f"C01.rej.hostsyntax: cannot fold the Host pattern: {e}")
     # CONNECT takes the authority-form (RFC 9112 3.2.3): the same `uri-host[:port]` gate as the Host value, before URL.build(authority=...)
     ct = None
     for r_, cname_ in K.raises_in(pm.node):
         cl_ = PC.pc(r_, raw=True)
-        if any(len(c_) == 1 and l.pos and l.text in ("method == 'CONNECT'", "method == METH_CONNECT", "method == hdrs.METH_CONNECT") for c_ in cl_ for l in c_) and PC.has_lit(cl_, [("$R.fullmatch(path)", False), ("$R.fullmatch(path) is None", True)], True) is not None:
+        if any(len(c_) == 1 and l.pos and l.text in ("method == 'CONNECT'", "method == METH_CONNECT", "method == hdrs.METH_CONNECT") for c_ in cl_ for l in c_) and (
+                PC.has_lit(cl_, [("$R.fullmatch(path)", False), ("$R.fullmatch(path) is None", True)], True) is not None or _predicate_gate(cl_, "path") is not None):
             ct = r_
     if ct is not None:
         chk.ok("C01.rej.connecttarget", ct, "the CONNECT request-target is matched against the host[:port] pattern before it becomes the URL's authority")
